@@ -328,6 +328,9 @@ func (c *Collection) WriteCas(key string, exp Exp, cas CAS, val any, opt sgbucke
 	if raw == nil {
 		isJSON = false
 	}
+	if raw == nil && (opt&sgbucket.Append) != 0 {
+		raw = []byte{} // appending nothing leaves the body as it is (in SQL, value || NULL is NULL)
+	}
 
 	err = c.withNewCas(func(txn *sql.Tx, newCas CAS) (*event, error) {
 		wasTombstone := false
